@@ -7,6 +7,8 @@ import PyamgV.Proofs.ExtSolvePathEx
 import PyamgV.Proofs.ExtSmoothersCycle
 import PyamgV.Proofs.ExtSmoothersRefine
 import PyamgV.Proofs.ExtC03XWitness
+import PyamgV.Proofs.ExtC03YWitness
+import PyamgV.Proofs.ExtC03YRat
 
 /-! # C03 — a cycle is the textbook multigrid recursion: fixed, linear and consistent
 
@@ -279,5 +281,113 @@ example : sem (cycX S2 .W 2 [L1, L2, L3, L4, L5] [1, 2] [0, 3]) = sem [1, 2] :=
 open PyamgV.C03 PyamgV.C03X PyamgV.C03X.Witness in
 example (v : Vec) : sem (precX S2 .F [L3, L4] (fun _ => true) v) = MopX S2 .F 1 [L3, L4] (sem v) :=
   precX_eq S2 .F L3 [L4] (fun L hL => all_ok L (by simp at hL ⊢; rcases hL with h | h <;> simp [h])) (fun _ => true) v
+
+/-! ## the extended cycle model over an arbitrary field: complex hierarchies, smoothers of BSR levels (extension E55)
+
+Model/ExtC03YCyc.lean: `cycY` / `solveY` / `precY` = the extended model of E38 with the SCALAR TYPE AS A PARAMETER (all kernel
+models are scalar-polymorphic and are compared by C09 with the real kernels on real and complex data) and a conjugation `conj`
+(what the `_ne` / `_nr` kernels apply to the stored entries: `id` for real data, `CRat.conj` for the Gaussian rationals), plus
+three more recorded calls: `bsrgs` / `bsrjac` (`gauss_seidel` / `sor` / `jacobi` on a BSR level: the point kernels on the point
+rows of the BSR arrays) and `cfbjac` (`cf_block_jacobi` / `fc_block_jacobi` with inverse diagonal blocks).  The driver
+(`c03y_run`, `c03y_q`, scalar tag `r` / `c`) runs exactly these definitions over `Rat` and over `CRat` on the level matrices of
+real, complex Hermitian and complex nonsymmetric hierarchies plus the recorded data and compares with the real `solve`,
+`aspreconditioner` and the installed closures.  The theorems hold over EVERY field `𝕜` with decidable equality and every map
+`conj : 𝕜 → 𝕜` -- no order is used (the affine structure of a cycle is algebraic); `Field CRat` (Proofs/ExtComplexGs.lean) is
+built from the operations of Model/CRat.lean, so they are statements about the complex runs of the driver. -/
+
+/-- (E55) **every recorded relaxation call for the level matrix is the linear iteration `x ← x + Q (b − A x)`, over any field**:
+`sem (applySm conj A s x b) = sem x + Sm.opQ conj s (sem b − A (sem x))` for all lists `x`, `b` -- polynomial / Chebyshev /
+Richardson, block Jacobi, block Gauss-Seidel, `jacobi_ne`, `gauss_seidel_ne`, `gauss_seidel_nr` (with the conjugation),
+CF / FC Jacobi, Schwarz, Gauss-Seidel / SOR, Jacobi, the point smoothers of BSR levels, CF / FC block Jacobi, matrices -/
+restate field_recorded_smoother_is_linear_iteration := PyamgV.C03Y.sm_semLin
+restate field_recorded_smoother_isLinIter := PyamgV.C03Y.sm_isLinIter
+/-- (E55) `cycle_is_linear_iteration` over any field: one cycle of `cycY` is `x + M (b − A₀ x)`, `M = MopY` = the textbook
+composition (`MopL`) of the recorded smoothers' operators, `P`, `R`, the coarse solver; V / W / F, any `cycles_per_level` -/
+restate field_cycle_is_linear_iteration := PyamgV.C03Y.cycY_affine
+/-- (E55) under `sem`, the scalar-polymorphic model is the abstract recursion `cyc` -/
+restate field_model_refines_abstract_cycle := PyamgV.C03Y.cycY_sem
+/-- (E55) `exact_solution_is_fixed_point` over any field -/
+restate field_exact_solution_is_fixed_point := PyamgV.C03Y.cycY_fixed_point
+/-- (E55) `k_cycles_error_propagation` over any field -/
+restate field_k_cycles_error_propagation := PyamgV.C03Y.cycY_iter_error
+/-- (E55) `preconditioner_is_M` over any field: `aspreconditioner(cycle)` of the model is the linear map `M` of the requested
+cycle type (`cycles_per_level = 1`) whatever the tolerance test does -/
+restate field_preconditioner_is_M := PyamgV.C03Y.precY_eq
+/-- (E55) `k_one_cycle_calls_eq_one_k_cycle_call` over any scalar -/
+restate field_k_one_cycle_calls := PyamgV.C03Y.solveY_k_calls
+restate field_one_cycle_call_is_one_step := PyamgV.C03Y.loopY_one
+/-- (E55) the generic steps over a field -/
+restate field_generic_cycle_is_linear_iteration := PyamgV.C03Y.cycF_affine
+restate field_array_kernel_on_padded_lists := PyamgV.C03Y.semLin_viaArr
+restate field_csr_copy_denotes_csr_operator := PyamgV.C03Y.msem_csrDense
+restate field_csc_copy_denotes_csc_operator := PyamgV.C03Y.msem_cscDense
+restate field_bsr_copy_denotes_bsr_operator := PyamgV.C03Y.msem_bsrDense
+/-- (E55) the families one by one over a field (array kernel model = function-level model, which is a linear iteration) -/
+restate field_polynomial_call_is_linear_iteration := PyamgV.C03Y.poly_semLin
+restate field_block_jacobi_call_is_linear_iteration := PyamgV.C03Y.bjac_semLin
+restate field_block_gauss_seidel_call_is_linear_iteration := PyamgV.C03Y.bgs_semLin
+/-- (E55) Kaczmarz with an arbitrary conjugation: the row operator is `ω Dinv_i conj(a_i) (·)_i` -/
+restate field_gauss_seidel_ne_call_is_linear_iteration := PyamgV.C03Y.gsne_semLin
+/-- (E55) `jacobi_ne`: `Q = ω Aᴴ diag(A Aᴴ)⁻¹` with `Aᴴ` the entry-wise `conj` of the transpose -/
+restate field_jacobi_ne_call_is_linear_iteration := PyamgV.C03Y.jacne_semLin
+/-- (E55) `gauss_seidel_nr` (CSC arrays): the kernel loop keeps `r = b − A x`; column operator `ω Dinv_i e_i ⟨conj(A e_i), ·⟩` -/
+restate field_gauss_seidel_nr_call_is_linear_iteration := PyamgV.C03Y.gsnr_semLin
+restate field_gauss_seidel_nr_kernel_keeps_residual := PyamgV.C03Y.nr_fold
+restate field_cf_fc_jacobi_call_is_linear_iteration := PyamgV.C03Y.cfjac_semLin
+restate field_schwarz_call_is_linear_iteration := PyamgV.C03Y.schwarz_semLin
+restate field_gauss_seidel_sor_call_is_linear_iteration := PyamgV.C03Y.gs_semLin
+restate field_jacobi_call_is_linear_iteration := PyamgV.C03Y.jac_semLin
+/-- (E55) **the smoothers of BSR levels**: `gauss_seidel` / `sor` (`bsr_gauss_seidel`, resp. `tocsr` + the SOR kernel) and
+`jacobi` (`bsr_jacobi`) are the point kernels on the point rows `bsrToCsr` of the BSR arrays -- a linear iteration of the level
+matrix `bsrDense M` when every point row stores one non-zero diagonal entry -/
+restate bsr_point_gauss_seidel_sor_is_linear_iteration := PyamgV.C03Y.bsrgs_semLin
+restate bsr_point_jacobi_is_linear_iteration := PyamgV.C03Y.bsrjac_semLin
+/-- (E55) meaning of the point rows: stored row `p` of `bsrToCsr M` lists, for every stored block of block row `p / bs` in storage
+order, the `bs` entries of its row `p % bs`; hence the dense form of the point rows IS the dense form of the BSR arrays -/
+restate bsr_point_rows_are_block_rows := PyamgV.C03Y.bsrToCsr_row
+restate bsr_point_rows_denote_bsr_matrix := PyamgV.C03Y.csrDense_bsrToCsr
+/-- (E55) **CF / FC block Jacobi** (`block_jacobi_indexed` kernel, `Dinv_i A_ii = I`): `c_iterations` sweeps
+`x + ω E_C D⁻¹ E_Cᵀ (b − A x)` and `f_iterations` sweeps over the F block rows in the stated order, `iterations` times -/
+restate cf_fc_block_jacobi_is_linear_iteration := PyamgV.C03Y.cfbjac_semLin
+restate block_jacobi_indexed_kernel_is_splitting_update := PyamgV.C03Y.bjacIdx_refines
+/-- (E55) the order-free abstract steps the above rest on (E23's `CF` theorems; stated here for completeness) -/
+restate field_abstract_cycle_is_linear_iteration := PyamgV.CF.cycL_isLinIter
+restate field_linear_iterations_compose_list := PyamgV.C03Y.IsLinIter.foldl
+restate field_polynomial_is_linear_iteration := PyamgV.C03Y.polynomial_isLinIter
+restate field_polynomial_model_refines := PyamgV.C03Y.polynomial_refines
+/-- (E55) **the scalar-polymorphic model contains the rational extended model of E38**: over `ℚ` with `conj = id` and the
+recorded calls of E38 read as recorded calls of the new model (`RatInst.ofSm`), `cycY` / `solveY` / `precY` ARE `cycX` / `solveX` /
+`precX`, every recorded call is the same map and `AllOK` is the same predicate -- the driver ops `c03x_run` and `c03y_run r` run
+one model -/
+restate field_model_contains_rational_model := PyamgV.C03Y.RatInst.cycY_eq_cycX
+restate field_solve_contains_rational_solve := PyamgV.C03Y.RatInst.solveY_eq_solveX
+restate field_preconditioner_contains_rational_preconditioner := PyamgV.C03Y.RatInst.precY_eq_precX
+restate field_recorded_call_is_rational_recorded_call := PyamgV.C03Y.RatInst.applySm_eq
+restate field_hypothesis_is_rational_hypothesis := PyamgV.C03Y.RatInst.allOK_iff
+/-- (E55) non-vacuity and necessity over the Gaussian rationals, evaluated by the kernel: recorded complex calls of every family
+(Hermitian and nonsymmetric level matrix, complex damping parameters, BSR point smoothers, CF / FC block Jacobi) satisfy
+`AllOK`; the conjugate copy, the conjugate inverse block and BSR arrays of another matrix are rejected; without the
+conjugation the `_ne` / `_nr` kernels give other iterates -/
+restate witness_complex_all_families_ok := PyamgV.C03Y.Witness.all_ok
+restate witness_complex_stale_copy_rejected := PyamgV.C03Y.Witness.stale_copy_rejected
+restate witness_complex_wrong_inverse_rejected := PyamgV.C03Y.Witness.wrong_inverse_rejected
+restate witness_bsr_point_rows_checked := PyamgV.C03Y.Witness.bsr_point_rows_checked
+restate witness_conjugation_matters_ne := PyamgV.C03Y.Witness.conj_matters_ne
+restate witness_conjugation_matters_nr := PyamgV.C03Y.Witness.conj_matters_nr
+restate witness_conjugated_kaczmarz_fixed_point := PyamgV.C03Y.Witness.conj_fixed_point_ne
+restate witness_complex_run_blocks := PyamgV.C03Y.Witness.run_blocks
+restate witness_cf_block_jacobi_nontrivial := PyamgV.C03Y.Witness.cfbjac_nontrivial
+/-- (E55) the field-generic theorems applied to the executable complex model (instances of Model/CRat.lean) -/
+restate witness_complex_fixed_point := PyamgV.C03Y.Witness.fixed_point_complex
+restate witness_complex_nonsymmetric_fixed_point := PyamgV.C03Y.Witness.fixed_point_complex_nonsymmetric
+restate witness_complex_preconditioner_is_M := PyamgV.C03Y.Witness.precond_complex
+
+/-! non-vacuity (E55): the error-propagation theorem on the concrete complex hierarchy, the driver's scalar operations -/
+open PyamgV PyamgV.C03Y PyamgV.C03Y.Witness in
+example (k : Nat) (x : Vec CRat) :
+    sem ([c 1 0, c 1 0] : Vec CRat) - sem (PyamgV.C03.iterN (fun x => cycY CRat.conj S2 .V 1 [L1, L6] x [c 2 (-1), c 2 1]) k x) =
+      Nat.iterate (fun e => e - MopY CRat.conj S2 .V 1 [L1, L6] (msem L1.A e)) k (sem ([c 1 0, c 1 0] : Vec CRat) - sem x) :=
+  cycY_iter_error CRat.conj S2 .V 1 L1 [L6] (fun L hL => all_ok L (by simp at hL ⊢; rcases hL with h | h <;> simp [h]))
+    [c 1 0, c 1 0] [c 2 (-1), c 2 1] (by rw [← sem_matVec]; exact congrArg sem exact_solution) k x
 
 end PyamgV.Props.C03
